@@ -93,6 +93,12 @@ type Config struct {
 	// steps as concurrent. Exact replay is lost in this mode.
 	Parallel       float64
 	ParallelBudget int
+	// StallProb > 0 turns on the "stalled goroutine" fault: at an optional yield
+	// point the running task is, with this probability, descheduled for a short
+	// simulated time (100 us .. 50 ms) - what a loaded machine does to any
+	// goroutine at any instruction. The sticky scheduler alone rarely preempts
+	// a task in the middle of a short critical sequence.
+	StallProb float64
 	// OnlySites, when non-empty, restricts optional yield points to sites
 	// containing one of these substrings (site-targeted strategy).
 	OnlySites []string
@@ -541,8 +547,19 @@ func Yield(site string) {
 		}
 		return
 	}
+	if s.cfg.StallProb > 0 && s.cfg.Parallel == 0 && !s.aborting.Load() {
+		if s.choose("stall", 2, 1-2*s.cfg.StallProb) == 1 {
+			d := stallDurations[s.choose("stall-for", len(stallDurations), 0.4)]
+			s.Fault("stall")
+			s.Logf("fault stall %s for %v @%s", t.Label, d, site)
+			Sleep(d) // ends with a mandatory schedule point
+			return
+		}
+	}
 	s.park(t, site)
 }
+
+var stallDurations = []time.Duration{time.Millisecond, 100 * time.Microsecond, 5 * time.Millisecond, 50 * time.Millisecond}
 
 // YieldMust is a mandatory schedule point (after a wake-up caused by another
 // goroutine or by the clock).
